@@ -81,8 +81,8 @@ func propC16(c *Ctx, r *Report) {
 	}
 	evalEra("PEG request credited immediately only before the conversion limit", rb,
 		func(h uint32) *Scenario {
-			return &Scenario{Params: map[string]AVal{"currentHeight": hconst(h)},
-				Calls:    map[string]AVal{"fat2.(*Transaction).IsPEGRequest": cBool(true), "fat2.(*Transaction).IsConversion": cBool(true)},
+			return &Scenario{Params: map[string]AVal{"type:uint32": hconst(h)},
+				Calls:    map[string]AVal{"fat2.Transaction.IsPEGRequest": cBool(true), "fat2.Transaction.IsConversion": cBool(true)},
 				Paths:    map[string]AVal{"fat2.Transaction.Conversion": cInt(tick["PEG"])},
 				MaxDepth: 0, AllErrorsNil: true}
 		},
@@ -98,8 +98,8 @@ func propC16(c *Ctx, r *Report) {
 		})
 	evalEra("a non-PEG conversion is always credited immediately", rb,
 		func(h uint32) *Scenario {
-			return &Scenario{Params: map[string]AVal{"currentHeight": hconst(h)},
-				Calls:    map[string]AVal{"fat2.(*Transaction).IsPEGRequest": cBool(false), "fat2.(*Transaction).IsConversion": cBool(true)},
+			return &Scenario{Params: map[string]AVal{"type:uint32": hconst(h)},
+				Calls:    map[string]AVal{"fat2.Transaction.IsPEGRequest": cBool(false), "fat2.Transaction.IsConversion": cBool(true)},
 				MaxDepth: 0, AllErrorsNil: true}
 		},
 		func(h uint32, t *Trace) string { return "live" },
@@ -112,7 +112,7 @@ func propC16(c *Ctx, r *Report) {
 			return "dead"
 		})
 	holdSc := func(h uint32) *Scenario {
-		return &Scenario{Params: map[string]AVal{"currentHeight": hconst(h)},
+		return &Scenario{Params: map[string]AVal{"type:uint32": hconst(h)},
 			Calls: map[string]AVal{"HasPEGRequest": cBool(true), "isDone": cBool(false), "applyTransactionBatch": nilVal, "IsReplayTransaction": {K: ATuple, Tup: []AVal{cBool(false), nilVal}},
 				"SelectBankEntry": {K: ATuple, Tup: []AVal{top, nilVal}}},
 			MaxDepth: 1, AllErrorsNil: true, NoInline: map[string]bool{"recordPegnetRequests": true, "GetPegNetRateAverages": true}}
@@ -161,9 +161,25 @@ func propC16(c *Ctx, r *Report) {
 			}
 			return strings.Join(out, " + ")
 		})
+	evalEra("pooled settlement reads the pn_bank row of the executing height", hold, holdSc,
+		func(h uint32, t *Trace) string {
+			if h >= v4 && h < v20 {
+				return fmt.Sprintf("%d", h)
+			}
+			return "dead"
+		},
+		func(h uint32, t *Trace) string {
+			for _, lc := range t.Calls {
+				if lc.Short == "SelectBankEntry" && lc.Depth == 0 {
+					return lc.Args[2].String()
+				}
+			}
+			return "dead"
+		})
+	ruleNoCarriedReads(c, newSharedAnalysis(c), r, "C16/no-carried-state", reachOf(c, "node.Pegnetd.SyncBank", "node.Pegnetd.recordPegnetRequests", "node.Pegnetd.ApplyTransactionBatchesInHolding"), carriedAllowedAverages, "the PEG bank")
 	sbk := c.fn("node.Pegnetd.SyncBank")
 	evalEra("pn_bank row inserted iff V4 <= h < V20, with 5,000 PEG for height h", sbk,
-		func(h uint32) *Scenario { return &Scenario{Params: map[string]AVal{"currentHeight": hconst(h)}, MaxDepth: 0} },
+		func(h uint32) *Scenario { return &Scenario{Params: map[string]AVal{"type:uint32": hconst(h)}, MaxDepth: 0} },
 		func(h uint32, t *Trace) string {
 			if h >= v4 && h < v20 {
 				return fmt.Sprintf("(%d,%d)", h, bank5k)
@@ -180,7 +196,7 @@ func propC16(c *Ctx, r *Report) {
 	{
 		var bad []string
 		for _, bh := range []uint32{v4 - 2, v4 - 1, v4, v4 + 1} {
-			sc := &Scenario{Params: map[string]AVal{"bankHeight": cInt(int64(bh))}, MaxDepth: 0, AllErrorsNil: true}
+			sc := &Scenario{Params: map[string]AVal{"type:int32": cInt(int64(bh))}, MaxDepth: 0, AllErrorsNil: true}
 			t, _ := acc.run(c, r, rp, sc)
 			if t.Live("UpdateBankEntry") != (bh >= v4) {
 				bad = append(bad, fmt.Sprintf("bankHeight=%d: UpdateBankEntry %s", bh, liveStr(t.Live("UpdateBankEntry"))))
@@ -192,7 +208,7 @@ func propC16(c *Ctx, r *Report) {
 
 	// the settled list is not carried over
 	r.rule("C16/settle-once", 1, "requests settled for one height are not settled again for the next")
-	for _, ci := range findCalls(hold, "node.(*Pegnetd).recordPegnetRequests") {
+	for _, ci := range findCalls(hold, "node.Pegnetd.recordPegnetRequests") {
 		if l := innermostLoop(hold, ci.Block()); l != nil {
 			settleOnce(c, r, "C16/settle-once", hold, ci, l)
 		}
@@ -202,10 +218,10 @@ func propC16(c *Ctx, r *Report) {
 	r.rule("C16/second-pass-provenance", 2, "yield, refund, history and bank record come from the same payout values")
 	{
 		var bad []string
-		lp := findCalls(rp, "conversions.(*ConversionSupplySet).Payouts")
-		adds := findCalls(rp, "pegnet.(*Pegnet).AddToBalance")
+		lp := findCalls(rp, "conversions.ConversionSupplySet.Payouts")
+		adds := findCalls(rp, "pegnet.Pegnet.AddToBalance")
 		ref := findCalls(rp, "conversions.Refund")
-		hist := findCalls(rp, "pegnet.(*Pegnet).SetTransactionHistoryPEGConvertedRequestAmount")
+		hist := findCalls(rp, "pegnet.Pegnet.SetTransactionHistoryPEGConvertedRequestAmount")
 		upd := findCalls(rp, "pegnet.Pegnet.UpdateBankEntry")
 		ncs := findCalls(rp, "conversions.NewConversionSupply")
 		if len(lp) != 1 || len(adds) != 2 || len(ref) != 1 || len(hist) != 1 || len(upd) != 1 || len(ncs) != 1 {
@@ -245,7 +261,7 @@ func propC16(c *Ctx, r *Report) {
 				}
 				rcall := ref[0].(*ssa.Call)
 				ra := rcall.Call.Args
-				if valuePath(ra[0]) != "currentHeight" || typePath(unwrapConv(ra[1])) != "fat2.TypedAddressAmountTuple.Amount" || unwrapConv(ra[2]) != yield ||
+				if !c.isExecHeight(ra[0]) || typePath(unwrapConv(ra[1])) != "fat2.TypedAddressAmountTuple.Amount" || unwrapConv(ra[2]) != yield ||
 					typePath(ra[3]) != "rates[fat2.TypedAddressAmountTuple.Type]" || typePath(ra[4]) != "rates[fat2.Transaction.Conversion]" {
 					bad = append(bad, fmt.Sprintf("Refund arguments are (%s, %s, yield=%v, %s, %s)", valuePath(ra[0]), typePath(unwrapConv(ra[1])), unwrapConv(ra[2]) == yield, typePath(ra[3]), typePath(ra[4])))
 				}
@@ -286,7 +302,7 @@ func propC16(c *Ctx, r *Report) {
 		r.check(len(bad) == 0, "C16/second-pass-provenance", "recordPegnetRequests", c.pos(rp.Pos()), "PEG credit = Payouts()[txid]; refund = Refund(h, input, yield, rates[in], rates[PEG]) in the input asset; both to tx.Input.Address; history and pn_bank carry the same values", strings.Join(bad, "; "))
 	}
 	// requests: AddConversion(txid, Convert(...)) for the executing height
-	for _, ci := range findCalls(rp, "conversions.(*ConversionSupplySet).AddConversion") {
+	for _, ci := range findCalls(rp, "conversions.ConversionSupplySet.AddConversion") {
 		okk := sliceHas(ci.Common().Args[2], func(v ssa.Value) bool {
 			return isCallTo(v, "Convert")
 		})
@@ -299,7 +315,7 @@ func propC16(c *Ctx, r *Report) {
 	for _, rel := range []int{-1, 0, 1} {
 		rel := rel
 		sc := &Scenario{Lens: map[string]AVal{"conversions.ConversionSupplySet.ConversionRequests": cInt(3)},
-			Calls: map[string]AVal{"math/big.(*Int).IsUint64": cBool(true), "math/big.(*Int).Uint64": sym("total")},
+			Calls: map[string]AVal{"math/big.Int.IsUint64": cBool(true), "math/big.Int.Uint64": sym("total")},
 			Paths: map[string]AVal{"conversions.ConversionSupplySet.Bank": sym("bank")},
 			Order: func(x, y AVal) (int, bool) {
 				if x.K == ASym && y.K == ASym && x.Sym == "total" && y.Sym == "bank" {
@@ -314,14 +330,39 @@ func propC16(c *Ctx, r *Report) {
 	}
 	pb := c.fn("conversions.PayoutBig")
 	{
-		muls := findCalls(pb, "math/big.(*Int).Mul")
-		quos := findCalls(pb, "math/big.(*Int).Quo")
+		muls := findCalls(pb, "math/big.Int.Mul")
+		quos := findCalls(pb, "math/big.Int.Quo")
 		okk := len(muls) == 1 && len(quos) == 1 && instrDominates(muls[0], quos[0])
 		if okk {
+			// by data flow: the product is of two distinct uint64 parameters, the divisor is the *big.Int parameter; at
+			// the call in Payouts these are (a request of the set, the set's Bank, the set's total)
 			q := quos[0].Common().Args
-			okk = sliceHas(q[1], func(v ssa.Value) bool { return v == muls[0].(ssa.Value) }) && valuePath(q[2]) == "totalRequested"
 			m := muls[0].Common().Args
-			okk = okk && sliceHas(m[1], func(v ssa.Value) bool { p, ok := v.(*ssa.Parameter); return ok && p.Name() == "requested" }) && sliceHas(m[2], func(v ssa.Value) bool { p, ok := v.(*ssa.Parameter); return ok && p.Name() == "bank" })
+			usesParam := func(v ssa.Value) int {
+				idx := -1
+				backSlice(v, func(x ssa.Value) bool {
+					if p, ok := x.(*ssa.Parameter); ok && p.Parent() == pb {
+						idx = ownParam(p, pb)
+					}
+					return true
+				})
+				return idx
+			}
+			i1, i2, i3 := usesParam(m[1]), usesParam(m[2]), ownParam(q[2], pb)
+			okk = sliceHas(q[1], func(v ssa.Value) bool { return v == muls[0].(ssa.Value) }) && i1 >= 0 && i2 >= 0 && i3 >= 0 && i1 != i2 && i1 != i3 && i2 != i3
+			if okk {
+				nsite := 0
+				for _, ci := range c.findCallsFam(pf, "conversions.PayoutBig") {
+					nsite++
+					a := ci.Common().Args
+					tpBank := typePath(a[i1]) == "conversions.ConversionSupplySet.Bank" || typePath(a[i2]) == "conversions.ConversionSupplySet.Bank"
+					tot := typePath(a[i3])
+					if !tpBank || !strings.HasPrefix(tot, "conversions.ConversionSupplySet.") || tot == "conversions.ConversionSupplySet.Bank" {
+						okk = false
+					}
+				}
+				okk = okk && nsite >= 1
+			}
 		}
 		r.check(okk, "C16/payouts-table", "PayoutBig = Quo(Mul(requested, bank), totalRequested)", c.pos(pb.Pos()), "", "the proportional share is not floor(requested x bank / total) computed multiply-first")
 	}
